@@ -70,6 +70,12 @@ func (s *State) assume(t *Term) {
 	if t.IsFalse() {
 		s.dead = true
 	}
+	if t.Op == "and" {
+		for _, a := range t.Args {
+			s.assume(a)
+		}
+		return
+	}
 	s.pc = s.pc.push(t)
 }
 
